@@ -48,6 +48,9 @@ def EnumAccepts (allowed : List Str) (s : Str) : Prop := s ∈ allowed ∨ prefi
 /-- the ambiguity error (E006): no exact match and at least two allowed values start with `s` -/
 def EnumAmbiguous (allowed : List Str) (s : Str) : Prop := s ∉ allowed ∧ 2 ≤ prefixMatches allowed s
 
+instance (a : List Str) (s : Str) : Decidable (EnumAccepts a s) := by unfold EnumAccepts; infer_instance
+instance (a : List Str) (s : Str) : Decidable (EnumAmbiguous a s) := by unfold EnumAmbiguous; infer_instance
+
 /-! ### TYPE — "STRING | NUMBER | LIST | BOOLEAN; NUMBER accepts both int and float", booleans never numbers -/
 def TypeAccepts (t : Str) (v : PyVal) : Prop :=
   (t = "STRING".toList ∧ kindOf v = .text) ∨
@@ -117,7 +120,8 @@ def monthLength (y m : Nat) : Nat :=
 def RealDate (y m d : Nat) : Prop := 1 ≤ y ∧ y ≤ 9999 ∧ 1 ≤ m ∧ m ≤ 12 ∧ 1 ≤ d ∧ d ≤ monthLength y m
 instance (y m d : Nat) : Decidable (RealDate y m d) := by unfold RealDate; infer_instance
 
-def digit? (c : Char) : Option Nat := if '0' ≤ c ∧ c ≤ '9' then some (c.toNat - 48) else Option.none
+/-- value of an ASCII digit (code points 48–57) -/
+def digit? (c : Char) : Option Nat := if 48 ≤ c.toNat ∧ c.toNat ≤ 57 then some (c.toNat - 48) else Option.none
 
 /-- `YYYY-MM-DD` with ASCII digits: the three numbers, if the text has that shape -/
 def dateFields : Str → Option (Nat × Nat × Nat)
